@@ -29,6 +29,7 @@ def gen(rng, tier):
     ctx.p_auto_chunks = 0.1
     ctx.p_random_twin = 0.3
     ctx.p_random_sibling = rng.choice([0.15, 0.5])
+    ctx.p_random_auto = rng.choice([0.0, 0.3, 0.6])
     n = rng.randint(3, 10)
     recipe = G.gen_program(ctx, n, n_leaves=rng.randint(1, 3))
     steps = recipe["steps"]
@@ -88,6 +89,22 @@ def gen_history(rng, targets, rand_vars, tier):
             o = f"u{k[0]}"
             hist.append({"ev": "pickle", "var": rng.choice(live), "out": o})
             extra.append(o)
+        elif r < 0.5 and built:
+            # ship: dump a collection, let go of EVERYTHING alive (so no live node can absorb the copy),
+            # collect, load -- possibly where array.chunk-size differs -- and compute the copy
+            k[0] += 1
+            o = f"l{k[0]}"
+            v = rng.choice(live)
+            hist.append({"ev": "dump", "var": v, "slot": o})
+            for w in list(built) + list(extra):
+                hist.append({"ev": "drop", "var": w})
+            del built[:]
+            del extra[:]
+            hist.append({"ev": "gc"})
+            cfg = {"array.chunk-size": rng.choice(["8B", "16B", "32B", "64B", "4KiB"])} if rng.random() < 0.6 else None
+            hist.append({"ev": "load", "slot": o, "out": o, "config": cfg})
+            extra.append(o)
+            hist.append(dict({"ev": "compute", "var": o, "entry": "method"}, **H.rand_sched(rng)))
         elif r < 0.52:
             k[0] += 1
             o = f"p{k[0]}"
@@ -154,6 +171,7 @@ def execute(case, stats, log):
     sub = SubstEnv(m)
     realization = {}  # random program var -> first value observed in this history (per build generation)
     generation = {}
+    blobs = {}
 
     def ensure_realization(rv, i):
         """value(R) of the *currently live* instance of random var rv."""
@@ -180,6 +198,34 @@ def execute(case, stats, log):
         elif var is not None and ev["ev"] != "build" and var not in m.pool:
             continue
         org = m.origin.get(var) if var else None
+        if ev["ev"] == "dump":
+            import cloudpickle
+
+            try:
+                blobs[ev["slot"]] = (cloudpickle.dumps(m.pool[var]), org)
+            except Exception:  # noqa: BLE001 -- untokenizable pieces: not this check's matter
+                pass
+            continue
+        if ev["ev"] == "load":
+            if ev["slot"] not in blobs:
+                continue
+            import pickle
+
+            import dask
+
+            blob, org0 = blobs[ev["slot"]]
+            with dask.config.set(ev.get("config") or {}):
+                try:
+                    y = pickle.loads(blob)
+                    _ = y.chunks, y.name  # first read happens under the receiver's configuration
+                except Exception as e:  # noqa: BLE001
+                    raise Violation(ID, "unpickled-random-array-broken",
+                                    f"event {i}: unpickling {org0} under {ev.get('config')} raised {type(e).__name__}: {str(e)[:200]}", step=i)
+            m.pool[ev["out"]] = y
+            m.origin[ev["out"]] = org0
+            stats["fault.load_after_drop"] = stats.get("fault.load_after_drop", 0) + 1
+            log.append([i, "load", ev["out"], str(ev.get("config"))])
+            continue
         try:
             out = m.apply(ev)
         except Violation:
@@ -188,6 +234,10 @@ def execute(case, stats, log):
             if ev["ev"] == "build":
                 raise Invalid(f"build raised {type(e).__name__}: {str(e)[:200]}")
             pr = m.pristine.get(org)
+            if ev["ev"] == "compute" and str(var).startswith("l") and pr and pr["error"] is None and org in realization:
+                raise Violation(ID, "unpickled-random-array-broken",
+                                f"event {i}: compute of the unpickled copy {var} of {org} raised {type(e).__name__}: "
+                                f"{str(e)[:200]} while the original computed", step=i)
             if pr and pr["error"] is None and ev["ev"] in ("compute", "persist", "optimize", "graph"):
                 # an entry point failing is C05/C09's matter unless it is the random node itself
                 stats["unclaimed.raised"] = stats.get("unclaimed.raised", 0) + 1
